@@ -297,13 +297,13 @@ impl Scenario for C14S {
         }
     }
     fn rule(&self) -> &'static str {
-        "case = program of 1..6 sends from one thread: plain values with 0..8 embedded endpoints/regions; values whose Serialize fails after visiting k items; sends to a channel whose receiver is gone (OS rejection); sends issued from inside another value's Serialize (depth <=3, attachments before/inside/after, inner send failing or not, failure propagated or not); a receive inside a Deserialize; followed by further plain traffic; observers watch every embedded channel; non-trivial = at least one failing or nested send with >=1 attachment; distinct = distinct (program, schedule hash)"
+        "case = program of 1..6 top-level sends from one thread (the last one always plain): plain values with 0..8 embedded endpoints/regions; values whose Serialize fails after visiting k items; sends to a channel whose receiver is gone (OS rejection); sends issued from inside another value's Serialize (depth <=3, attachments before/inside/after, inner send failing or not, failure propagated or not); a receive inside a Deserialize; followed by further plain traffic; observers watch every embedded channel; non-trivial = at least one failing or nested send with >=1 attachment; distinct = distinct (program, schedule hash)"
     }
     fn gen(&self, seed: u64, idx: u64, _tier: Tier, _variant: &str) -> Value {
         let mut r = Rng::stream(seed, idx.wrapping_mul(2654435761).wrapping_add(0xC14));
         let sim = sim_json(&mut r, seed ^ idx.wrapping_mul(0x9E37));
         fn items(r: &mut Rng, hook_ok: bool) -> Vec<Value> {
-            (0..r.below(6)).map(|_| json!(*r.pick(if hook_ok { &["tx", "tx", "rx", "region", "plain", "hook"][..] } else { &["tx", "tx", "rx", "region", "plain"][..] }))).collect()
+            (0..r.below(9)).map(|_| json!(*r.pick(if hook_ok { &["tx", "tx", "rx", "region", "plain", "hook"][..] } else { &["tx", "tx", "rx", "region", "plain"][..] }))).collect()
         }
         fn step(r: &mut Rng, depth: u32) -> Value {
             let it = items(r, depth == 0);
@@ -316,7 +316,7 @@ impl Scenario for C14S {
                 _ => json!({"kind": "plain", "items": it}),
             }
         }
-        let n = r.range(1, 5);
+        let n = r.range(0, 5);
         let mut steps: Vec<Value> = (0..n).map(|_| step(&mut r, 0)).collect();
         // always finish with ordinary traffic from the same thread
         steps.push(json!({"kind": "plain", "items": items(&mut r, false)}));
